@@ -268,4 +268,28 @@ theorem applyAll_spec {p : Pool κ} (hp : p.WF) (l : List (κ × Nat)) (hk : l.m
   have := applyAll_aux l p [] [] p.ws (by simp [hk]) (by simp) rfl hl hp.nodup
   simpa using this
 
+theorem eraseIdx_append_last {α : Type} (l : List α) (a : α) {n : Nat} (hn : n = l.length) :
+    (l ++ [a]).eraseIdx n = l := by
+  subst hn
+  rw [List.eraseIdx_eq_take_drop_succ]
+  simp
+
+/-- adding a new key and removing it again (the rollback of a failed add) leaves keys and weights
+    as they were -/
+theorem upsert_remove_new {p : Pool κ} (hp : p.WF) {k : κ} (hk : k ∉ p.keys) (w : Option Nat) :
+    (p.upsert k w).remove k = some ⟨p.keys, p.ws, It.reset⟩ := by
+  have hf : p.find k = none := find_none.mpr hk
+  have hn : (p.keys ++ [k]).Nodup :=
+    List.nodup_append.mpr ⟨hp.nodup, List.nodup_singleton k, by
+      intro a ha b hb; simp at hb; subst hb; intro e; subst e; exact hk ha⟩
+  unfold upsert
+  rw [hf]
+  simp only
+  unfold remove
+  rw [find_append_mid (done := p.keys) (todo := []) hn]
+  simp only [Option.some.injEq]
+  congr 1
+  · exact eraseIdx_append_last _ _ rfl
+  · exact eraseIdx_append_last _ _ hp.len.symm
+
 end RR.Pool
